@@ -103,3 +103,20 @@ package criteria_mixing
 //@   property C07 C18 C20
 //@   nopanic
 //@   ensures [name] result == "criteriaMixing"
+
+// ---- the state and the report mixing hands on
+//@ func updateDMParams
+//@   inline
+//@   property C18 C07 C09 C20
+//@   ensures [state] result.MethodParameters == newMethodParams && len(result.Criteria) == len(params.Criteria) + 1 && result.Criteria[len(params.Criteria)] == newCriterion
+//@             && (forall k int :: 0 <= k && k < len(params.Criteria) ==> result.Criteria[k] == params.Criteria[k])
+//@             && len(result.ConsideredAlternatives) == len(params.ConsideredAlternatives) && len(result.NotConsideredAlternatives) == len(params.NotConsideredAlternatives)
+//@             && (forall i int :: 0 <= i && i < len(params.ConsideredAlternatives) ==> result.ConsideredAlternatives[i].Id == params.ConsideredAlternatives[i].Id)
+//@             && (forall i int :: 0 <= i && i < len(params.NotConsideredAlternatives) ==> result.NotConsideredAlternatives[i].Id == params.NotConsideredAlternatives[i].Id)
+//@ func prepareMixedCriterion
+//@   property C18 C09 C07 C20
+//@   nopanic
+//@   ensures [report] result.Component1.Id == c2m.c1.Id && result.Component1.Type == c2m.c1.Type && result.Component1.ScaledValues == mixResult.c1
+//@             && result.Component2.Id == c2m.c2.Id && result.Component2.Type == c2m.c2.Type && result.Component2.ScaledValues == mixResult.c2
+//@             && result.NewCriterion.Id == newCriterion.Id && result.NewCriterion.Type == newCriterion.Type && result.NewCriterion.ScaledValues == mixResult.result
+//@             && result.Params == criterionParams
